@@ -115,8 +115,9 @@ pub fn run_case(ctx: &mut Ctx, fam: &str, _k: u64, r: &mut Rng) {
                 Some(x) => x,
                 None => return,
             };
-            let target = gen_target(r, &want.dims);
-            let desc = format!("model|{}", spec.describe());
+            let tdims = if r.chance(1, 3) { super::shapes::partner(r, &want.dims) } else { want.dims.clone() };
+            let target = gen_target(r, &tdims);
+            let desc = format!("model|{}|target{:?}", spec.describe(), tdims);
             ctx.case(&desc, spec.layers.len() >= 2);
             ctx.sample(&format!("model{}", spec.layers.len()), || desc.clone());
             let want_cost = cost_ref(spec.ce, &want, &target).unwrap();
@@ -165,16 +166,22 @@ pub fn run_case(ctx: &mut Ctx, fam: &str, _k: u64, r: &mut Rng) {
             let n = numel(&dims);
             let ce = r.chance(1, 2);
             let out: Vec<f64> = if ce { (0..n).map(|_| 0.125 * r.int(1, 8)).collect() } else { (0..n).map(|_| 0.25 * r.int(-12, 12)).collect() };
-            let tgt: Vec<f64> = (0..n).map(|_| 0.25 * r.int(0, 4)).collect();
+            // the target may have the output's shape or any shape broadcasting to it (a vector target next to a
+            // [1,n] output of an unbatched dense layer, one target row shared by a batch, ...)
+            let tdims: Vec<usize> = if r.chance(1, 2) { dims.clone() } else { super::shapes::partner(r, &dims) };
+            let tgt: Vec<f64> = (0..numel(&tdims)).map(|_| 0.25 * r.int(0, 4)).collect();
             let to: T<f64> = T::from_f64(&dims, &out);
-            let tt: T<f64> = T::from_f64(&dims, &tgt);
+            let tt: T<f64> = T::from_f64(&tdims, &tgt);
+            if tdims != dims {
+                ctx.count("cost_cases_with_broadcast_target", 1);
+            }
             let want = cost_ref(ce, &to, &tt).unwrap();
-            let desc = format!("cost|{}|{:?}", if ce { "cross_entropy" } else { "mse" }, dims);
+            let desc = format!("cost|{}|{:?}|target{:?}", if ce { "cross_entropy" } else { "mse" }, dims, tdims);
             ctx.case(&desc, n > 1);
             ctx.sample(&format!("cost{}", ce), || format!("{} output={} target={}", desc, short(&out), short(&tgt)));
             let res = guard(|| {
                 let f: CostFunction = if ce { cost::cross_entropy() } else { cost::mse() };
-                let c = f(&arr(&dims, &out), &arr(&dims, &tgt));
+                let c = f(&arr(&dims, &out), &arr(&tdims, &tgt));
                 (Obs::of(&c), c.sum_all() as f64)
             });
             match res {
